@@ -193,6 +193,71 @@ fn within_budget(f: &Fl) -> bool {
     nodes <= 4096 && branches <= 1024
 }
 
+impl Rq {
+    /// one-step reductions (for shrinking a failing query)
+    fn reductions(&self) -> Vec<Rq> {
+        let mut out = vec![];
+        match self {
+            Rq::In(ks) => for i in 0..ks.len() { let mut k = ks.clone(); k.remove(i); out.push(Rq::In(k)); },
+            Rq::And(qs) | Rq::Or(qs) => {
+                let mk = |v: Vec<Rq>| if matches!(self, Rq::And(_)) { Rq::And(v) } else { Rq::Or(v) };
+                for i in 0..qs.len() {
+                    out.push(qs[i].clone());
+                    let mut v = qs.clone(); v.remove(i); out.push(mk(v));
+                    for r in qs[i].reductions() { let mut v = qs.clone(); v[i] = r; out.push(mk(v)); }
+                }
+            }
+            Rq::Not(q) => { out.push((**q).clone()); for r in q.reductions() { out.push(Rq::Not(Box::new(r))); } }
+            _ => {}
+        }
+        out
+    }
+}
+
+impl Fl {
+    fn reductions(&self) -> Vec<Fl> {
+        let mut out = vec![];
+        match self {
+            Fl::Id(q) => for r in q.reductions() { out.push(Fl::Id(r)); },
+            Fl::Field(ix, q) => for r in q.reductions() { out.push(Fl::Field(*ix, r)); },
+            Fl::And(fs) | Fl::Or(fs) => {
+                let mk = |v: Vec<Fl>| if matches!(self, Fl::And(_)) { Fl::And(v) } else { Fl::Or(v) };
+                for i in 0..fs.len() {
+                    out.push(fs[i].clone());
+                    let mut v = fs.clone(); v.remove(i); out.push(mk(v));
+                    for r in fs[i].reductions() { let mut v = fs.clone(); v[i] = r; out.push(mk(v)); }
+                }
+            }
+            Fl::Not(f) => { out.push((**f).clone()); for r in f.reductions() { out.push(Fl::Not(Box::new(r))); } }
+        }
+        out
+    }
+}
+
+/// Shrinks the filter of the last op (`q …` / `s …`) of a failing case while it keeps failing.
+fn shrink_query(ops: Vec<String>, fails: &mut dyn FnMut(&[String]) -> bool) -> Vec<String> {
+    let mut ops = ops;
+    let Some(last) = ops.last().cloned() else { return ops };
+    let toks: Vec<&str> = last.split(' ').collect();
+    if toks.len() < 4 { return ops; }
+    let head = toks[..3].join(" ");
+    let mut it = toks[3..].iter();
+    let Some(mut f) = Fl::parse(&mut it) else { return ops };
+    let mut budget = 300;
+    'outer: loop {
+        for cand in f.reductions() {
+            if budget == 0 { break 'outer; }
+            budget -= 1;
+            let n = ops.len();
+            let mut trial = ops.clone();
+            trial[n - 1] = format!("{head} {}", cand.line());
+            if fails(&trial) { f = cand; ops = trial; continue 'outer; }
+        }
+        break;
+    }
+    ops
+}
+
 fn keys_of(d: &Doc, ix: usize) -> Vec<i64> {
     match ix {
         0 => vec![d.a as i64],
@@ -538,6 +603,11 @@ fn main() {
                     check_case(&rt, cand, &mut none, &mut scratch, false).0 > 0
                 }
             }, 200);
+            let small = shrink_query(small, &mut |cand: &[String]| {
+                let mut none = None;
+                let mut scratch = Report::new("C03", &args, "");
+                check_case(&rt, cand, &mut none, &mut scratch, false).0 > 0
+            });
             let mut none = None;
             let mut scratch = Report::new("C03", &args, "");
             check_case(&rt, &small, &mut none, &mut scratch, true);
